@@ -41,6 +41,9 @@ pub enum V {
     AcceptAll,
     RejectAll,
     OnlyB,
+    /// a verifier whose verdict depends on state outside the program (a policy switch the embedder
+    /// can flip): accepts everything while the policy is on, nothing while it is off
+    Stateful,
 }
 
 #[derive(Clone, Copy, Debug, PartialEq, Eq, Hash, PartialOrd, Ord)]
@@ -61,6 +64,19 @@ pub enum Act {
     Exec,
     ExecJit,
     ExecCl,
+    /// not an API call: the embedder flips the policy the Stateful verifier consults
+    FlipPolicy,
+}
+
+thread_local! {
+    static POLICY: std::cell::Cell<bool> = const { std::cell::Cell::new(true) };
+}
+fn ver_stateful(_p: &[u8]) -> Result<(), std::io::Error> {
+    if POLICY.with(|p| p.get()) {
+        Ok(())
+    } else {
+        Err(std::io::Error::other("policy is off"))
+    }
 }
 
 const OFFS: [(usize, usize); 4] = [(0x40, 0x50), (0x50, 0x40), (0x0, 0x8), (0x0, 0x48)];
@@ -153,12 +169,13 @@ fn calc(prog: &[u8], _pc: usize, _data: &mut dyn std::any::Any) -> u16 {
     (32 + prog.len()) as u16
 }
 
-fn accepts(v: V, p: P) -> bool {
+fn accepts(v: V, p: P, policy: bool) -> bool {
     match v {
         V::Default | V::DefaultLike => p != P::X && p != P::O,
         V::AcceptAll => true,
         V::RejectAll => false,
         V::OnlyB => p == P::B,
+        V::Stateful => policy,
     }
 }
 
@@ -178,18 +195,20 @@ pub struct St {
     pub jit_implicit: bool,
     pub cl_implicit: bool,
     pub offs: u8,
+    /// the policy the Stateful verifier consults
+    pub policy: bool,
     pub hist: Vec<Act>,
 }
 
 impl PartialEq for St {
     fn eq(&self, o: &St) -> bool {
-        self.created == o.created && self.kind == o.kind && self.prog == o.prog && self.verifier == o.verifier && self.helper == o.helper && self.calc == o.calc && self.jit == o.jit && self.cl == o.cl && self.jit_implicit == o.jit_implicit && self.cl_implicit == o.cl_implicit && self.offs == o.offs
+        self.created == o.created && self.kind == o.kind && self.prog == o.prog && self.verifier == o.verifier && self.helper == o.helper && self.calc == o.calc && self.jit == o.jit && self.cl == o.cl && self.jit_implicit == o.jit_implicit && self.cl_implicit == o.cl_implicit && self.offs == o.offs && self.policy == o.policy
     }
 }
 impl Eq for St {}
 impl Hash for St {
     fn hash<H: Hasher>(&self, h: &mut H) {
-        (self.created, self.kind, self.prog, self.verifier, self.helper, self.calc, self.jit, self.cl, self.jit_implicit, self.cl_implicit, self.offs).hash(h)
+        (self.created, self.kind, self.prog, self.verifier, self.helper, self.calc, self.jit, self.cl, self.jit_implicit, self.cl_implicit, self.offs, self.policy).hash(h)
     }
 }
 
@@ -300,6 +319,7 @@ fn uses_helper(p: P) -> bool {
 /// which the probe checks like after any other failed set_program.
 fn loading_o_may_fail(s: &St, a: Act, n: St, exp: Exp, obs: &Obs) -> (St, Exp) {
     if let (Act::SetProgram(P::O, _), Exp::Ok, Obs::Err(_)) = (a, &exp, obs) {
+        // (under the Stateful verifier with the policy on, O loads like under accept-all)
         let mut u = s.clone();
         u.hist = n.hist.clone();
         return (u, Exp::Any);
@@ -319,7 +339,7 @@ pub fn step(s: &St, a: Act) -> (St, Exp) {
                     n.created = true;
                     Exp::Ok
                 }
-                Some(p) if accepts(V::Default, p) => {
+                Some(p) if accepts(V::Default, p, true) => {
                     n.created = true;
                     n.prog = Some(p);
                     Exp::Ok
@@ -328,7 +348,7 @@ pub fn step(s: &St, a: Act) -> (St, Exp) {
             }
         }
         Act::SetProgram(p, o) => {
-            if accepts(s.verifier, p) {
+            if accepts(s.verifier, p, s.policy) {
                 n.prog = Some(p);
                 n.offs = o;
                 // compiled code belongs to the previous program: it must not run any more
@@ -342,7 +362,7 @@ pub fn step(s: &St, a: Act) -> (St, Exp) {
             }
         }
         Act::SetVerifier(v) => {
-            if s.prog.map_or(true, |p| accepts(v, p)) {
+            if s.prog.map_or(true, |p| accepts(v, p, s.policy)) {
                 n.verifier = v;
                 Exp::Ok
             } else {
@@ -388,6 +408,10 @@ pub fn step(s: &St, a: Act) -> (St, Exp) {
         },
         Act::ExecJit => exec_compiled(s, s.jit, Eng::Jit, &PKT1),
         Act::ExecCl => exec_compiled(s, s.cl, Eng::Cl, &PKT1),
+        Act::FlipPolicy => {
+            n.policy = !s.policy;
+            Exp::Ok
+        }
     };
     (n, exp)
 }
@@ -497,9 +521,14 @@ impl RealVm {
                 V::AcceptAll => ver_accept_all,
                 V::RejectAll => ver_reject_all,
                 V::OnlyB => ver_only_b,
+                V::Stateful => ver_stateful,
             })),
             Act::RegisterHelper(f) => rr(vmx.register_helper(1, if f == F::F { helper_f } else { helper_g })),
             Act::SetCalc => rr(vmx.set_calc(calc, Box::new(()))),
+            Act::FlipPolicy => {
+                POLICY.with(|p| p.set(!p.get()));
+                Obs::Ok
+            }
             Act::JitCompile => rr(vmx.compile(Eng::Jit)),
             Act::ClCompile => rr(vmx.compile(Eng::Cl)),
             Act::Exec => exec_real(vmx, kind, Eng::Interp, &PKT1),
@@ -567,6 +596,7 @@ pub struct ApiModel {
 
 /// Replay a history on a fresh real VM; returns the VM and the observation of the last action.
 fn rebuild(hist: &[Act]) -> (RealVm, Option<Obs>) {
+    POLICY.with(|p| p.set(true));
     let mut r = RealVm { vm: None, kind: K::Raw };
     let mut last = None;
     for a in hist {
@@ -601,7 +631,7 @@ fn probe(m: &ApiModel, n: &St, real: &mut RealVm, via: Act) {
         checks.push(("exec-cl", exec_compiled(n, n.cl, Eng::Cl, &PKT2), exec_real(vmx, kind, Eng::Cl, &PKT2)));
     }
     // a failing set_program must change nothing
-    if !accepts(n.verifier, P::X) {
+    if !accepts(n.verifier, P::X, n.policy) {
         let o = match vmx.set_program(prog_bytes(P::X), OFFS[(n.offs as usize + 1) % 3]) {
             Ok(()) => Obs::Ok,
             Err(e) => Obs::Err(e),
@@ -615,7 +645,7 @@ fn probe(m: &ApiModel, n: &St, real: &mut RealVm, via: Act) {
     }
     // ... also when the refused byte string starts at the very address of the loaded program (the
     // loaded program plus one ill-formed slot; the loaded program without its last instruction)
-    if let (Some(p), true) = (n.prog, n.verifier != V::AcceptAll) {
+    if let (Some(p), true) = (n.prog, n.verifier != V::AcceptAll && !(n.verifier == V::Stateful && n.policy)) {
         for (name, longer) in [("failing-set_program-of-an-extension-of-the-loaded-buffer", true), ("failing-set_program-of-a-prefix-of-the-loaded-buffer", false)] {
             let o = match vmx.set_program(prog_alias(p, longer), OFFS[n.offs as usize]) {
                 Ok(()) => Obs::Ok,
@@ -650,6 +680,7 @@ fn act_name(a: Act) -> &'static str {
         Act::Exec => "execute_program",
         Act::ExecJit => "execute_program_jit",
         Act::ExecCl => "execute_program_cranelift",
+        Act::FlipPolicy => "flip-policy",
     }
 }
 
@@ -658,7 +689,7 @@ impl Model for ApiModel {
     type Action = Act;
 
     fn init_states(&self) -> Vec<St> {
-        vec![St { created: false, kind: K::Raw, prog: None, verifier: V::Default, helper: None, calc: false, jit: None, cl: None, jit_implicit: false, cl_implicit: false, offs: 0, hist: vec![] }]
+        vec![St { created: false, kind: K::Raw, prog: None, verifier: V::Default, helper: None, calc: false, jit: None, cl: None, jit_implicit: false, cl_implicit: false, offs: 0, policy: true, hist: vec![] }]
     }
 
     fn actions(&self, s: &St, out: &mut Vec<Act>) {
@@ -698,6 +729,9 @@ impl Model for ApiModel {
         }
         for v in &self.cfg.verifiers {
             out.push(Act::SetVerifier(*v));
+        }
+        if self.cfg.verifiers.contains(&V::Stateful) {
+            out.push(Act::FlipPolicy);
         }
         for f in &self.cfg.helpers {
             out.push(Act::RegisterHelper(*f));
@@ -779,7 +813,7 @@ fn cfg_for(tier: Tier, part: usize) -> Cfg {
         return Cfg {
             kinds: if tier == Tier::Quick { vec![K::NoData, K::Fixed] } else { vec![K::Raw, K::Fixed, K::Mbuff, K::NoData] },
             progs: vec![P::A, P::L, P::X],
-            verifiers: vec![V::DefaultLike, V::RejectAll],
+            verifiers: vec![V::DefaultLike, V::RejectAll, V::Stateful],
             helpers: vec![],
             calc: true,
             jit: false,
@@ -849,6 +883,7 @@ fn parse_act(s: &str) -> Act {
             "DefaultLike" => V::DefaultLike,
             "AcceptAll" => V::AcceptAll,
             "RejectAll" => V::RejectAll,
+            "Stateful" => V::Stateful,
             _ => V::OnlyB,
         });
     }
@@ -857,6 +892,7 @@ fn parse_act(s: &str) -> Act {
     }
     match s {
         "SetCalc" => Act::SetCalc,
+        "FlipPolicy" => Act::FlipPolicy,
         "JitCompile" => Act::JitCompile,
         "ClCompile" => Act::ClCompile,
         "Exec" => Act::Exec,
